@@ -27,7 +27,7 @@ CHECKS = {
          "deviations is serialised and read back by the full and the abridged reader (byte alignment asserted with a sentinel); all record streams "
          "of <=3/4 records over {3 gene infos, 3 assignments} go through the real tmp-file printer and both loaders; multimapper files with "
          "terminator; runs restarted with --read_assignments are compared file by file with the run that saved them.",
-         "Trusted: field-wise state projections in props/c15.py. Non-ASCII strings and negative/non-representable penalty scores are outside the domain.",
+         "Trusted: field-wise state projections in props/c15.py. Negative/non-representable penalty scores are outside the domain.",
          "DESIGN.md §3 C15"),
  "C17": ("model_checking",
          "explicit-state BFS over get_id/increment call histories on the real FeatureIdStorage/ExcludingIdDistributor (state = id tables), plus pipeline fixed-point chains (output annotation fed back as reference)",
